@@ -770,6 +770,46 @@ fn gen_kernel_cases(k: &mut KRun, thorough: bool) {
             }
         }
     }
+    // ---- next_register headroom (hook H1: the VM's stack sizes read inside a native function) ------------
+    {
+        thread_local! { static PROBE: RefCell<Vec<(usize, bool)>> = const { RefCell::new(Vec::new()) }; }
+        for (name, extra) in [("probe_un", 1), ("probe_bin", 2)] {
+            for n in (150..=256usize).filter(|n| thorough || *n >= 225 || n % 10 == 0) {
+                PROBE.with(|p| p.borrow_mut().clear());
+                let koto = new_koto();
+                koto.prelude().add_fn("probe_un", |ctx| {
+                    let (len, _, _, _, base) = ctx.vm.verif_stack_sizes();
+                    let arg = ctx.args().first().cloned().unwrap_or(KValue::Null);
+                    let ok = ctx.vm.run_unary_op(koto_runtime::UnaryOp::Size, arg).is_ok();
+                    PROBE.with(|p| p.borrow_mut().push((len - base, ok)));
+                    Ok(KValue::Null)
+                });
+                koto.prelude().add_fn("probe_bin", |ctx| {
+                    let (len, _, _, _, base) = ctx.vm.verif_stack_sizes();
+                    let arg = ctx.args().first().cloned().unwrap_or(KValue::Null);
+                    let ok = ctx.vm.run_binary_op(koto_runtime::BinaryOp::Equal, arg.clone(), arg).is_ok();
+                    PROBE.with(|p| p.borrow_mut().push((len - base, ok)));
+                    Ok(KValue::Null)
+                });
+                // (the binary probe compares two numbers: comparing containers nests further operations)
+                let probe_arg = if extra == 2 { "1" } else { "[1, 2, 3]" };
+                let src = format!("g = |args...| 0\ng({}, {}({}))\n", vec!["0"; n].join(", "), name, probe_arg);
+                let mut koto = koto;
+                let r = caught(|| koto.compile_and_run(&src).is_ok());
+                let probed = PROBE.with(|p| p.borrow().first().copied());
+                match (r, probed) {
+                    (None, Some((next, _))) | (Some(_), Some((next, _))) if r.is_none() => {
+                        k.add(format!("hostop 1 {} {}", next, extra), "panic".into(), format!("g(<{} args>, {}([1, 2, 3]))", n, name));
+                    }
+                    (Some(_), Some((next, ok))) => {
+                        k.add(format!("hostop 1 {} {}", next, extra), if ok { format!("ok {}", next) } else { "err".into() }, format!("g(<{} args>, {}([1, 2, 3]))", n, name));
+                    }
+                    // the compiler refused the call (register limit): the operation never started
+                    _ => {}
+                }
+            }
+        }
+    }
     // ---- ExecutionTimeout (hook H4, direct) -------------------------------------------------------------
     for (secs, label) in [(0u64, "0"), (1, "1"), (1u64 << 40, "2^40"), (1u64 << 62, "2^62"), (u64::MAX, "u64::MAX")] {
         let imp = caught(|| koto_runtime::verif_timeout_probe(Duration::from_secs(secs), 1, 0).len());
